@@ -289,7 +289,7 @@ func sameOutcome(c1 *lang.Cell, k1 int, c2 *lang.Cell, k2 int) bool {
 }
 
 var c06Prefix = []string{"!", "-", "+"}
-var c06PfxOperands = []string{"$.a", "$.o.k", "$.o.arr[1]", "$.o.arr.length()", "$.t", "$.s"}
+var c06PfxOperands = []string{"$.a", "$.o.k", "$.o.arr[1]", "$.o.arr.length()", "$.t", "$.s", "2.5 .floor()", "7.5 .ceil()", "[4.5][0].round()"}
 
 // VHC06Prefix: every prefix operator before every binary operator, with every kind of
 // suffixed operand: `U x B y` evaluates as `(U x) B y`, `x B U y` as `x B (U y)`, and a
